@@ -20,7 +20,7 @@ S(atoms) == Str(atoms)
 N0(kind, kids) == Node(kind, <<>>, <<>>, <<>>, kids)
 NL == S(<<"NL">>)
 A1 == <<Attr("id", "x1")>>
-A2 == <<Attr("class", "a-b"), Attr("data-x", "v.1")>>
+A2 == <<Attr("class", "a-b"), Attr("data-x", "v.1"), Attr("nowrap", "nowrap")>>   \* incl. a value equal to its name
 
 JoinKids(a, b) ==
   IF a # <<>> /\ b # <<>> /\ IsStr(a[Len(a)]) /\ IsStr(b[1])
